@@ -66,7 +66,12 @@ def run_job(job):
             yield ("search", i, None)
 
     executed = 0
+    search_started = False
     for kind, idx, scn in scenarios():
+        if kind == "search" and not search_started:
+            # the seeded search has its own time budget, whatever the enumerated family took
+            search_started = True
+            deadline = time.monotonic() + job.get("seconds", 1e9)
         if kind == "search" and time.monotonic() > deadline:
             out["stopped_at"] = idx
             break
